@@ -181,7 +181,11 @@ type segCase struct {
 	Twice bool `json:"twice,omitempty"`
 	// MediaOnly: the decoder gets the bytes behind ftyp/moov only (no mfra, no absolute base_data_offset)
 	MediaOnly bool `json:"mediaOnly,omitempty"`
-	NoAvoid   bool `json:"noAvoid,omitempty"` // ignore avoidKnown (reproducers of known findings) ...
+	// DropLast > 0: an additional history on a second decode of the same file: the last DropLast media segments
+	// are taken off File.Segments (an exported field; trimming a file), then UpdateSidx + Encode: the index must
+	// describe the segments that are written (reference count, tiling, durations)
+	DropLast int `json:"dropLast,omitempty"`
+	NoAvoid  bool `json:"noAvoid,omitempty"` // ignore avoidKnown (reproducers of known findings) ...
 	// ... or, when names are given, only these switches (a reproducer shows its own failure even if the same
 	// input also runs into another known finding earlier in the oracle)
 	NoAvoidOnly []string `json:"noAvoidOnly,omitempty"`
@@ -224,6 +228,7 @@ type stats struct {
 	skipped map[string]bool
 	slow    bool // the tool exceeded its time limit next to its siblings, not when run alone
 	refused bool // UpdateSidx refused a segment duration that 32 bits cannot hold
+	dropped string // the drop-last-segments history ran (class label)
 }
 
 // skip reports whether the relation guarded by the named switch is left unjudged (and notes it).
@@ -1217,66 +1222,109 @@ func evalSegWith(c *segCase, st *stats, keepPrft bool) *harness.Fail {
 	if fail := swAfter(exp3); fail != nil {
 		return fail
 	}
-	sidxEnd := pos[sidxAt+1]
-	segStart := make([]uint64, len(part)) // first byte of each segment in the output
-	moofPos := make([]uint64, len(frags))
-	mediaEnd := uint64(len(o))
-	seen := map[int]bool{}
-	for i, e := range exp3 {
-		if e.seg >= 0 && !seen[e.seg] {
-			seen[e.seg] = true
-			segStart[e.seg] = pos[i]
-		}
-		if e.typ == "moof" {
-			moofPos[e.frag] = pos[i]
-		}
-		if e.typ == "mfra" {
-			mediaEnd = pos[i]
-		}
-	}
-	sx, err := parseSidx(o[pos[sidxAt]:sidxEnd])
-	if err != nil {
-		return harness.Failf("C12|UpdateSidx+Encode|sidx box malformed", "%v: %x", err, o[pos[sidxAt]:sidxEnd])
-	}
-	// the references tile the media (14496-12 8.16.3.3: the first referenced item starts at the anchor = first
-	// byte after the sidx + first_offset; every further one directly after the preceding one)
-	if len(sx.Refs) != len(part) {
-		return harness.Failf("C12|UpdateSidx|reference_count differs from the number of segments|rule="+rule, "%d references, %d segments; %s", len(sx.Refs), len(part), describe())
-	}
-	at := sidxEnd + sx.FirstOffset
+	// tile judges the index of an output: exp3 is the expected box sequence, pos the positions compareOut found
+	// for it, sidxAt the place of the sidx in exp3, nSeg the number of segments written
 	ri := refTrack(c.Tracks)
 	rt := &c.Tracks[ri]
-	for i, r := range sx.Refs {
-		if at != segStart[i] {
-			key := "C12|UpdateSidx|reference does not start at the first byte of its segment|rule=" + rule
-			if i == 0 {
-				key = "C12|UpdateSidx|first reference does not start at the first byte of the first segment"
+	tile := func(o []byte, exp3 []ebox, pos []uint64, sidxAt int, nSeg int) (*sidxBox, []uint64, []uint64, uint64, uint64, *harness.Fail) {
+		sidxEnd := pos[sidxAt+1]
+		segStart := make([]uint64, nSeg) // first byte of each segment in the output
+		moofPos := make([]uint64, len(frags))
+		mediaEnd := uint64(len(o))
+		seen := map[int]bool{}
+		for i, e := range exp3 {
+			if e.seg >= 0 && !seen[e.seg] {
+				seen[e.seg] = true
+				segStart[e.seg] = pos[i]
 			}
-			return harness.Failf(key, "reference %d starts at %d, segment %d at %d (end of sidx %d, first_offset %d); references %+v; %s", i, at, i, segStart[i], sidxEnd, sx.FirstOffset, sx.Refs, describe())
-		}
-		at += uint64(r.Size)
-		var dur uint64
-		for _, g := range part[i] {
-			tr := frags[g].Tracks[ri]
-			for k := tr.First; k < tr.First+tr.N; k++ {
-				dur += uint64(rt.Samples[k].Dur)
+			if e.typ == "moof" {
+				moofPos[e.frag] = pos[i]
+			}
+			if e.typ == "mfra" {
+				mediaEnd = pos[i]
 			}
 		}
-		if r.Type != 0 {
-			return harness.Failf("C12|UpdateSidx|reference_type not media", "reference %d: %+v", i, r)
+		sx, err := parseSidx(o[pos[sidxAt]:sidxEnd])
+		if err != nil {
+			return nil, nil, nil, 0, 0, harness.Failf("C12|UpdateSidx+Encode|sidx box malformed", "%v: %x", err, o[pos[sidxAt]:sidxEnd])
 		}
-		if dur > 0xffffffff && c.skip(st, "sidx-duration-wraps") {
-			continue
+		// the references tile the media (14496-12 8.16.3.3: the first referenced item starts at the anchor = first
+		// byte after the sidx + first_offset; every further one directly after the preceding one)
+		if len(sx.Refs) != nSeg {
+			return nil, nil, nil, 0, 0, harness.Failf("C12|UpdateSidx|reference_count differs from the number of segments|rule="+rule, "%d references, %d segments; %s", len(sx.Refs), nSeg, describe())
 		}
-		if uint64(r.Duration) != dur {
-			if dur > 0xffffffff {
-				return harness.Failf("C12|UpdateSidx|no error for a segment whose duration does not fit subsegment_duration", "reference %d: duration %d, track index %d (ID %d) has %d (%#x) in segment %d: 32 bits cannot hold it, UpdateSidx returned nil; %s", i, r.Duration, ri, rt.ID, dur, dur, i, describe())
+		at := sidxEnd + sx.FirstOffset
+		for i, r := range sx.Refs {
+			if at != segStart[i] {
+				key := "C12|UpdateSidx|reference does not start at the first byte of its segment|rule=" + rule
+				if i == 0 {
+					key = "C12|UpdateSidx|first reference does not start at the first byte of the first segment"
+				}
+				return nil, nil, nil, 0, 0, harness.Failf(key, "reference %d starts at %d, segment %d at %d (end of sidx %d, first_offset %d); references %+v; %s", i, at, i, segStart[i], sidxEnd, sx.FirstOffset, sx.Refs, describe())
 			}
-			return harness.Failf("C12|UpdateSidx|subsegment_duration differs from the summed sample durations of the reference track", "reference %d: duration %d, track index %d (ID %d) has %d in segment %d; %s", i, r.Duration, ri, rt.ID, dur, i, describe())
+			at += uint64(r.Size)
+			var dur uint64
+			for _, g := range part[i] {
+				tr := frags[g].Tracks[ri]
+				for k := tr.First; k < tr.First+tr.N; k++ {
+					dur += uint64(rt.Samples[k].Dur)
+				}
+			}
+			if r.Type != 0 {
+				return nil, nil, nil, 0, 0, harness.Failf("C12|UpdateSidx|reference_type not media", "reference %d: %+v", i, r)
+			}
+			if dur > 0xffffffff && c.skip(st, "sidx-duration-wraps") {
+				continue
+			}
+			if uint64(r.Duration) != dur {
+				if dur > 0xffffffff {
+					return nil, nil, nil, 0, 0, harness.Failf("C12|UpdateSidx|no error for a segment whose duration does not fit subsegment_duration", "reference %d: duration %d, track index %d (ID %d) has %d (%#x) in segment %d: 32 bits cannot hold it, UpdateSidx returned nil; %s", i, r.Duration, ri, rt.ID, dur, dur, i, describe())
+				}
+				return nil, nil, nil, 0, 0, harness.Failf("C12|UpdateSidx|subsegment_duration differs from the summed sample durations of the reference track", "reference %d: duration %d, track index %d (ID %d) has %d in segment %d; %s", i, r.Duration, ri, rt.ID, dur, i, describe())
+			}
 		}
+		if at != mediaEnd {
+			return nil, nil, nil, 0, 0, harness.Failf("C12|UpdateSidx|references do not end at the end of the media|rule="+rule, "last reference ends at %d, media ends at %d (file %d); %+v; %s", at, mediaEnd, len(o), sx.Refs, describe())
+		}
+		return sx, segStart, moofPos, sidxEnd, mediaEnd, nil
 	}
-	if at != mediaEnd {
-		return harness.Failf("C12|UpdateSidx|references do not end at the end of the media|rule="+rule, "last reference ends at %d, media ends at %d (file %d); %+v; %s", at, mediaEnd, len(o), sx.Refs, describe())
+	sx, segStart, moofPos, sidxEnd, mediaEnd, fail := tile(o, exp3, pos, sidxAt, len(part))
+	if fail != nil {
+		return fail
+	}
+	// ---- (3b) the same after the last segments were taken off File.Segments (second decode of the input)
+	if c.DropLast > 0 && !c.Tool && truth.Mfra == nil && len(part) > 1 {
+		k := len(part) - c.DropLast
+		if k < 1 {
+			k = 1
+		}
+		f2, err := decode(c, file)
+		if err != nil || len(f2.Segments) != len(part) {
+			return harness.Failf("C12|"+dec+"|second decode of the same input differs", "%v, %d segments; %s", err, len(f2.Segments), describe())
+		}
+		f2.Segments = f2.Segments[:k]
+		st.dropped = fmt.Sprintf("history:drop-last-segments-then-UpdateSidx(existing index: %v)", existed)
+		if err := f2.UpdateSidx(c.AddIfNotExists, c.NonZeroEPT); err != nil {
+			return harness.Failf("C12|File.UpdateSidx|error on decoded file", "after dropping %d of %d segments: %v; %s", len(part)-k, len(part), err, describe())
+		}
+		var out2 bytes.Buffer
+		if err := f2.Encode(&out2); err != nil {
+			return harness.Failf("C12|File.Encode|error after UpdateSidx", "after dropping %d of %d segments: %v; %s", len(part)-k, len(part), err, describe())
+		}
+		var exp3d []ebox
+		for _, e := range exp3 {
+			if e.seg < k {
+				exp3d = append(exp3d, e)
+			}
+		}
+		pos2, fail := compareOut("drop last segments+UpdateSidx+Encode", out2.Bytes(), exp3d)
+		if fail != nil {
+			return fail
+		}
+		if _, _, _, _, _, fail := tile(out2.Bytes(), exp3d, pos2, sidxAt, k); fail != nil {
+			fail.Msg = fmt.Sprintf("after dropping the last %d of %d segments: %s", len(part)-k, len(part), fail.Msg)
+			return fail
+		}
 	}
 	if sx.Timescale != rt.Timescale {
 		return harness.Failf("C12|UpdateSidx|timescale differs from the reference track", "sidx %d, track ID %d has %d", sx.Timescale, rt.ID, rt.Timescale)
@@ -1677,6 +1725,12 @@ func genCase(t *rapid.T) (segCase, string) {
 			if o.Base == 2 && len(seen) > 1 {
 				o.Base = rapid.IntRange(0, 1).Draw(t, "base01")
 			}
+			// every run in a traf of its own (several trafs of one track in a moof, legal and unusual): grouping,
+			// re-encoding and the reference track's duration per segment do not depend on how the library's sample
+			// accessors address such trafs; never combined with legacy addressing
+			if len(fr.Runs) > 1 && o.Base != 2 && rapid.IntRange(0, 4).Draw(t, "splitTrafs") == 0 {
+				fr.SplitTrafs = true
+			}
 			o.TrunVersion = rapid.IntRange(0, 1).Draw(t, "trunVersion")
 			o.TfdtVersion = rapid.IntRange(0, 1).Draw(t, "tfdtVersion")
 			o.ForceAllPerSample = rapid.IntRange(0, 5).Draw(t, "forceAll") == 0
@@ -1711,6 +1765,9 @@ func genCase(t *rapid.T) (segCase, string) {
 	c.AddIfNotExists = rapid.IntRange(0, 3).Draw(t, "addIfNotExists") != 0
 	c.NonZeroEPT = rapid.Bool().Draw(t, "nonZeroEPT")
 	c.Twice = rapid.Bool().Draw(t, "twice")
+	if rapid.IntRange(0, 2).Draw(t, "dropLastSome") == 0 {
+		c.DropLast = rapid.IntRange(1, 3).Draw(t, "dropLast")
+	}
 	if rapid.IntRange(0, 5).Draw(t, "mediaOnly") == 0 {
 		// the media segments alone: nothing that stores absolute file offsets (mfra, explicit base_data_offset)
 		c.MediaOnly = true
@@ -2123,6 +2180,9 @@ func TestSegmentation(t *testing.T) {
 		}
 		if st.refused {
 			harness.Rec.Class("updatesidx-refuses-segment-duration-beyond-32-bits")
+		}
+		if st.dropped != "" {
+			harness.Rec.Class(st.dropped)
 		}
 		harness.Report(rt, "segmentation", c, f)
 	})
